@@ -11,7 +11,11 @@ outcome `outOfFuel`.  Proved:
   escaped-quote search within `|text| + 2` (C01 / `Fuel.lean`): the inline layer cannot run out of fuel by itself;
 * **line-macro expansion is bounded in depth** (`expansion_depth_bounded`): however macros are defined, the reader never
   has more than `MAX_EXPANSION_DEPTH` nested expansions open, and an expansion refused at the limit inserts nothing
-  - the mechanism that makes mutually / self recursive line macros terminate;
+  - the mechanism that makes mutually / self recursive line macros terminate; **the limit holds across container
+  blocks** (F36): `RInv` (depth the reader was created at + expansions it records <= limit) is an invariant of every
+  sequence of reader operations (`reader_stays_within_limit`), a container's content gets a reader created at the
+  nesting of the container's opening line (`container_reader_inv`), so the nesting reported anywhere is within the
+  limit;
 * every pattern that a `sub` / `split` / fragmenting loop iterates over consumes at least one character per match
   (`Facts.sub_patterns_minLen`, `Facts.replDefaults_minLen`, regenerated from the source);
 * the suffix search of `slugify` returns (C15 `suffix_spec` is stated for every fuel; its successful outcome is the
@@ -39,6 +43,114 @@ theorem expansion_depth_bounded (r : Reader) (lines : List Str) (d : Nat) (s : S
 
 /-- the limit comes from the source (`lineblocks.MAX_EXPANSION_DEPTH`) and is positive -/
 theorem expansion_limit : 0 < Gen.maxExpansionDepth ∧ Gen.maxExpansionDepth ≤ 100 := by decide
+
+/-- The reader's bookkeeping is within the limit: the expansions around this reader (its `depth`, fixed at creation)
+    plus those it records itself. -/
+def RInv (r : Reader) : Prop := r.depth + r.expansions.length ≤ Gen.maxExpansionDepth
+
+theorem nesting_le (r : Reader) (h : RInv r) : r.nesting ≤ Gen.maxExpansionDepth := by
+  have hdw : (r.expansions.dropWhile fun e => r.pos ≥ e).length ≤ r.expansions.length :=
+    (List.dropWhile_sublist _).length_le
+  unfold Reader.nesting; unfold RInv at h; omega
+
+/-- a fresh reader for a top-level document -/
+theorem ofText_inv (t : Str) : RInv (Reader.ofText t) := by
+  unfold RInv Reader.ofText; simp
+
+/-- **The limit is carried into containers**: the reader of a container's content starts at the nesting of the
+    container's opening line (`renderBlockBody` passes `reader.nesting` to `document`, which passes it to
+    `Reader.ofText`), so it is within the limit if the enclosing reader is. -/
+theorem container_reader_inv (r : Reader) (t : Str) (h : RInv r) : RInv (Reader.ofText t r.nesting) := by
+  have := nesting_le r h
+  unfold RInv Reader.ofText; simpa using this
+
+/-- the operations of `io.Reader` -/
+inductive ROp
+  | next | skipBlankLines | readTo (p : Pat) | setCursor (v : Str) | unescape | insertExpansion (lines : List Str)
+
+def ROp.run : ROp → Reader → M Reader
+  | .next, r => pure r.next
+  | .skipBlankLines, r => pure r.skipBlankLines
+  | .readTo p, r => do let (_, r') ← r.readTo p; pure r'
+  | .setCursor v, r => r.setCursor v
+  | .unescape, r => r.unescape
+  | .insertExpansion lines, r => do let (_, r') ← r.insertExpansion lines Gen.maxExpansionDepth; pure r'
+
+theorem readTo_go_keeps (r : Reader) (p : Pat) (s : Session) : ∀ rest pos acc,
+    wp (Reader.readTo.go r p rest pos acc) (fun res _ => res.2.depth = r.depth ∧ res.2.expansions = r.expansions) s := by
+  intro rest
+  induction rest with
+  | nil => intro pos acc; unfold Reader.readTo.go; wp_go'; all_goals exact ⟨rfl, rfl⟩
+  | cons l t ih =>
+    intro pos acc
+    unfold Reader.readTo.go
+    repeat (any_goals (first | exact ih _ _ | wp_step | wp_skip_call))
+    all_goals exact ⟨rfl, rfl⟩
+
+theorem skipBlankLines_go_keeps (r : Reader) : ∀ rest pos,
+    (Reader.skipBlankLines.go r rest pos).depth = r.depth ∧
+    (Reader.skipBlankLines.go r rest pos).expansions = r.expansions := by
+  intro rest
+  induction rest with
+  | nil => intro pos; unfold Reader.skipBlankLines.go; exact ⟨rfl, rfl⟩
+  | cons l t ih =>
+    intro pos
+    unfold Reader.skipBlankLines.go
+    split
+    · exact ih _
+    · exact ⟨rfl, rfl⟩
+
+/-- one operation keeps the invariant (and never changes the depth the reader was created with) -/
+theorem rop_inv (op : ROp) (r : Reader) (s : Session) (h : RInv r) :
+    wp (op.run r) (fun r' _ => RInv r' ∧ r'.depth = r.depth) s := by
+  cases op with
+  | next =>
+    simp only [ROp.run]; unfold Reader.next; wp_go'
+    all_goals (split <;> exact ⟨h, rfl⟩)
+  | skipBlankLines =>
+    simp only [ROp.run]; unfold Reader.skipBlankLines; wp_go'
+    obtain ⟨h1, h2⟩ := skipBlankLines_go_keeps r r.rest r.pos
+    exact ⟨by unfold RInv at *; rw [h1, h2]; exact h, h1⟩
+  | readTo p =>
+    simp only [ROp.run]; unfold Reader.readTo
+    wp_step
+    refine wp_mono (readTo_go_keeps r p s _ _ _) ?_
+    rintro ⟨l, r'⟩ s' ⟨h1, h2⟩
+    wp_go'
+    exact ⟨by unfold RInv at *; simp only at h1 h2; rw [h1, h2]; exact h, h1⟩
+  | setCursor v =>
+    simp only [ROp.run]; unfold Reader.setCursor; wp_go'
+    all_goals exact ⟨h, rfl⟩
+  | unescape =>
+    simp only [ROp.run]; unfold Reader.unescape Reader.setCursor Reader.cursor; wp_go'
+    all_goals exact ⟨h, rfl⟩
+  | insertExpansion lines =>
+    have hdw : (r.expansions.dropWhile fun e => r.pos ≥ e).length ≤ r.expansions.length :=
+      (List.dropWhile_sublist _).length_le
+    simp only [ROp.run]; unfold Reader.insertExpansion
+    wp_go'
+    all_goals (unfold RInv at *; refine ⟨?_, rfl⟩; simp_all <;> omega)
+
+/-- **Every reachable reader is within the limit**: whatever sequence of reader operations the block layer performs
+    on a reader that started within the limit, the reader stays within it, and so does the nesting it reports. -/
+theorem reader_stays_within_limit (ops : List ROp) (r : Reader) (s : Session) (h : RInv r) :
+    wp (ops.foldlM (fun r op => op.run r) r) (fun r' _ => RInv r' ∧ r'.nesting ≤ Gen.maxExpansionDepth) s := by
+  induction ops generalizing r s with
+  | nil => simp only [List.foldlM]; exact wp_pure _ ⟨h, nesting_le r h⟩
+  | cons op ops ih =>
+    simp only [List.foldlM]
+    apply wp_bind
+    refine wp_mono (rop_inv op r s h) ?_
+    intro r' s' ⟨h', _⟩
+    exact ih r' s' h'
+
+/-- Not vacuous: two nested expansions at the first line of a reader created at depth 3 report nesting 5; after
+    the inner one is passed, 4. -/
+example :
+    (match (([ROp.insertExpansion ["x".toList, "y".toList], .next, .insertExpansion ["z".toList], .next] : List ROp).foldlM
+              (fun (r : Reader) (op : ROp) => op.run r) (Reader.ofText "a\nb".toList 3)).run Session.uninit with
+     | .ok (r, _) => r.nesting == 5 && r.next.nesting == 4 && r.rest.length == 3
+     | .error _ => false) = true := by decide +kernel
 
 /-- **The inline layer terminates on its own fuel** (restated from C01): fragmenting for every pattern, macro
     rendering, template substitution, placeholder restoration. -/
